@@ -350,6 +350,8 @@ type netConf struct {
 	reqs          []reqSpec
 	conns         int // requests are dealt round-robin onto this many connections
 	halfClose     int // >0: connection halfClose-1 shuts down its sending side right after its last request (and keeps reading)
+	window        int // >0: at most this many unread bytes per direction on every connection (a slow reader blocks the writer)
+	readDelayMs   int // the clients start reading their responses this long after their last request
 	shutdownAtMs  int // >0: the server is shut down (gracefully, ample context) at this time while requests keep arriving
 }
 
@@ -359,6 +361,9 @@ func netScenario(c netConf) *vm.Scenario {
 		tars.VerifNewApp()
 		ts, _ := tars.VerifNewServer(adminf.NewAdminF(), imp{}, true, &transport.TarsServerConf{Proto: c.proto, Address: addr,
 			MaxInvoke: c.maxInvoke, QueueCap: 16, HandleTimeout: time.Duration(c.handleTimeout) * time.Millisecond, IdleTimeout: 600 * time.Second})
+		if c.window > 0 {
+			vnet.SetWindow(addr, c.window)
+		}
 		if err := ts.Listen(); err != nil {
 			panic(err)
 		}
@@ -405,6 +410,9 @@ func netScenario(c netConf) *vm.Scenario {
 				}
 				if c.halfClose == k+1 {
 					closeWrite()
+				}
+				if c.readDelayMs > 0 {
+					vm.Sleep(int64(c.readDelayMs) * 1e6)
 				}
 				setdl(vtime.Now().Add(3 * time.Second))
 				var buf []byte
@@ -710,6 +718,14 @@ func main() {
 		late2.atMs = 50 // the other connection's request is being executed by then
 		add(netConf{name: "queue-timeout behind busy worker two conns", proto: proto, maxInvoke: 1, conns: 2, reqs: []reqSpec{
 			R(61, 1, 0, "notify", "slow600"), late2}}, 1, false)
+		// the same with a handle timeout configured that is longer than everything here (it must not displace the
+		// request's own deadline)
+		for _, ver := range []int16{1, 3, 5} {
+			lv := late
+			lv.version = ver
+			add(netConf{name: fmt.Sprintf("queue-timeout behind busy worker, handle timeout 2 s, version %d", ver), proto: proto, maxInvoke: 1, handleTimeout: 2000, conns: 1, reqs: []reqSpec{
+				R(61, 1, 0, "notify", "slow600"), lv, intime}}, 0, false)
+		}
 	}
 	// a client that sends its request and shuts down its sending side while the request waits behind a busy worker
 	// (and, without a pool, while it is being handled): the answer still comes before the connection is closed
@@ -720,6 +736,15 @@ func main() {
 			R(91, 1, 0, "notify", "slow1500"), hc}}, 1, false)
 		add(netConf{name: "half-close single connection", proto: "tcp", maxInvoke: pool, conns: 1, halfClose: 1, reqs: []reqSpec{
 			R(93, 1, 0, "notify", "slow700"), R(94, 1, 0, "notify", "ok")}}, 1, false)
+	}
+	// two responses larger than what the connection buffers (window 2048: a write waits while that much is unread) to a
+	// client that has shut down its sending side and starts reading 1.3 s later: the second write is still in
+	// progress when the server's close poll looks
+	for _, pool := range []int32{0, 1} {
+		add(netConf{name: "half-close, big response to a late reader", proto: "tcp", maxInvoke: pool, conns: 1, halfClose: 1, window: 2048, readDelayMs: 1300, reqs: []reqSpec{
+			pad(R(95, 1, 0, "notify", "ok"), 8192), pad(R(98, 1, 0, "notify", "ok"), 8192)}}, 1, false)
+		add(netConf{name: "big responses to a late reader", proto: "tcp", maxInvoke: pool, conns: 1, window: 2048, readDelayMs: 700, reqs: []reqSpec{
+			pad(R(96, 1, 0, "notify", "ok"), 8192), pad(R(97, 3, 0, "notify", "ok"), 5000)}}, 0, false)
 	}
 	// requests whose bytes end exactly on the 4096-byte read buffer, then silence
 	for _, pool := range []int32{0, 1} {
